@@ -11,12 +11,13 @@ Definition obs13 := (list N * tgroups)%type.         (* returned type ids, decod
 
 Record tcase := mkTC {
   tc_base : tgroups;               (* the type section of the input module *)
-  tc_order : list N;               (* iteration order of module.types.types, read right after Module::parse *)
+  tc_order : list N;               (* iteration order of module.types.types, read right after Module::parse: since the
+                                      repair of D11 the model does not depend on it (kept: the case format is unchanged) *)
   tc_ops : list (N * ctype);       (* (API path, arguments) in call order *)
   tc_obs : option obs13 }.         (* None = panic / undecodable output *)
 
 Definition model (c : tcase) : option obs13 :=
-  let '(ids, st) := api_run (tc_ops c) (parse_types (tc_base c) (tc_order c)) in
+  let '(ids, st) := api_run (tc_ops c) (parse_types_asc (tc_base c)) in
   match emit_types st with
   | Some gs => Some (ids, gs)
   | None => None
@@ -92,16 +93,14 @@ Definition holds13 (c : tcase) : bool :=
   match tc_obs c with Some o => holds_on c o | None => false end.
 
 (* domain: at least one addition; the input is what a decoder can produce (an implicit group has one member);
-   super type ids fit PackedIndex (< 2^20, DESIGN.md section 2, last row); the observed iteration order visits every
-   existing type (it is a HashMap iteration) *)
+   super type ids fit PackedIndex (< 2^20, DESIGN.md section 2, last row) *)
 Fixpoint upto (n : nat) : list N := match n with O => [] | S k => upto k ++ [N.of_nat k] end.
 Definition memN (x : N) (l : list N) : bool := existsb (N.eqb x) l.
 Definition domain13 (c : tcase) : bool :=
   negb (is_nil (tc_ops c))
   && forallb (fun g => fst g || Nat.eqb (length (snd g)) 1) (tc_base c)
   && forallb (fun op => plain_path (fst op)
-                        || match t_sup (snd op) with Some i => i <? 1048576 | None => true end) (tc_ops c)
-  && forallb (fun id => memN id (tc_order c)) (upto (length (flat (tc_base c)))).
+                        || match t_sup (snd op) with Some i => i <? 1048576 | None => true end) (tc_ops c).
 
 Definition verdict13 (c : tcase) : bool * bool * bool * list N :=
   (agree c, domain13 c, holds13 c, []).
